@@ -98,7 +98,7 @@ func check(c Case) error {
 	select {
 	case err := <-done:
 		return err
-	case <-time.After(15 * time.Second):
+	case <-time.After(30 * time.Second):
 		buf := make([]byte, 1<<20)
 		n := runtime.Stack(buf, true)
 		var blocked []string
@@ -108,13 +108,13 @@ func check(c Case) error {
 			}
 		}
 		if len(blocked) == 0 {
-			panic("harness: C02 case exceeded 15s without any osmpbf goroutine")
+			panic("harness: C02 case exceeded 30s without any osmpbf goroutine")
 		}
 		d := strings.Join(blocked, "\n\n")
 		if len(d) > 4000 {
 			d = d[:4000]
 		}
-		return harness.Failf("C02/hang", "scan did not finish within 15s (procs=%d, %d blocks); goroutines in osmpbf frames:\n%s", c.Procs, len(c.File.Blocks), d)
+		return harness.Failf("C02/hang", "scan did not finish within 30s (procs=%d, %d blocks); goroutines in osmpbf frames:\n%s", c.Procs, len(c.File.Blocks), d)
 	}
 }
 
